@@ -1,18 +1,146 @@
-"""Verus back end (filled in below): units extracted verbatim from /repo."""
-UNITS = {}
+"""Verus back end: every run re-extracts the real items from /repo's working
+tree (tools/extract.py), splices the contracts from /verif/verus/*.rs.tmpl and
+runs `verus <file>` (single-file mode; `cargo verus` cannot resolve vstd
+offline)."""
+import hashlib
+import json
+import os
+import re
+import subprocess
+import time
+
+import extract
+
+UNITS = {
+    'V-range': dict(
+        tmpl='range.rs.tmpl', props=['C17', 'C01'],
+        functions=['ValueRange::new', '<ValueRange as Iterator>::next', 'lemma L-range (iteration yields a, a±1, …)'],
+        assumptions=[
+            'Verus/Z3 trusted; vstd specs of i128::partial_cmp, From<i64> for i128, Clone',
+            'V-range: UnitSet, Numeric, Value are opaque stubs; Numeric::new and From<Numeric> for Value are uninterpreted constructors',
+            'V-range: listed rewrite — `==` between two partial_cmp results routed through opt_ordering_eq (trusted: structural equality of Option<Ordering>)',
+            'V-range: `impl Iterator for ValueRange { fn next }` verified as an inherent fn',
+        ]),
+    'V-buffer-tail': dict(
+        tmpl='buffer_tail.rs.tmpl', props=['C07'],
+        functions=['CssData::into_buffer (tail: charset/BOM marker, newline trimming)'],
+        assumptions=[
+            'Verus/Z3 trusted; vstd specs of Vec::{last,pop,push,len,is_empty,with_capacity,extend_from_slice}, str::{len,as_bytes}',
+            'V-buffer-tail: assumed contract [u8]::is_ascii == all bytes < 128',
+            'V-buffer-tail: listed rewrite — `x.extend(y)` -> vec_extend_vec (trusted: Vec::extend(Vec) appends in order)',
+            'V-buffer-tail: assume(byte length of the marker literals <= 32) — feeds only the capacity hint',
+            'V-buffer-tail: requires buf.len() <= isize::MAX - 255 (Rust Vec invariant); usize is 64 bit',
+            'V-buffer-tail: Format/Error are stubs; the statement range is wrapped in a function whose parameters are its free variables (buf, format)',
+            'V-buffer-tail: exactly-one-newline is proved except when compressed output ends in newline + `;` (stated in the postcondition, no such writer output is known)',
+        ]),
+}
 
 
 def units_for(pid):
-    return [u for u in UNITS.values() if pid in u['props']]
+    return [dict(name=k, **v) for k, v in UNITS.items() if pid in v['props']]
+
+
+def _enclosing_fn(lines, lineno):
+    for i in range(min(lineno, len(lines)) - 1, -1, -1):
+        m = re.match(r'^\s*(?:pub\s+)?(?:proof\s+|exec\s+)?fn\s+(\w+)', lines[i])
+        if m:
+            return m.group(1)
+    return '?'
+
+
+def parse_errors(stderr, src_text):
+    lines = src_text.split('\n')
+    errs = []
+    blocks = re.split(r'\n(?=error)', stderr)
+    for b in blocks:
+        m = re.match(r'error(?:\[E\d+\])?: (.*)', b)
+        if not m:
+            continue
+        msg = m.group(1).strip()
+        if msg.startswith('aborting due to'):
+            continue
+        loc = re.search(r'--> [^:\n]+:(\d+):(\d+)', b)
+        lineno = int(loc.group(1)) if loc else 0
+        clause = lines[lineno - 1].strip() if 0 < lineno <= len(lines) else ''
+        fn = _enclosing_fn(lines, lineno)
+        errs.append({'message': msg, 'line': lineno, 'function': fn, 'clause': clause,
+                     'obligation': '%s:%s:%s' % (fn, msg, clause[:80]), 'text': b[:1500]})
+    return errs
+
+
+def run_unit(u, repo, root, workroot, log):
+    t0 = time.time()
+    tmpl = os.path.join(root, 'verus', u['tmpl'])
+    res = {'unit': u['name'], 'functions': u['functions'], 'assumptions': u['assumptions'], 'backend': 'verus'}
+    try:
+        text, report, hashes = extract.process_template(open(tmpl).read(), repo)
+    except extract.ExtractError as e:
+        res.update(status='EXTRACT_ERROR', detail=str(e), obligations=0, time_s=0)
+        return res
+    d = os.path.join(workroot, 'verus')
+    os.makedirs(d, exist_ok=True)
+    path = os.path.join(d, u['name'].replace('-', '_').lower() + '.rs')
+    open(path, 'w').write(text)
+    res['extraction'] = report
+    res['sha256'] = hashlib.sha256(text.encode()).hexdigest()
+    # mechanical scan for unchecked assumptions inside the generated file
+    res['assume_scan'] = sorted(set(re.findall(r'\b(assume\(|external_body|assume_specification|admit\()', text)))
+    p = subprocess.run(['verus', path, '--output-json', '--multiple-errors', '10'], cwd=d, stdout=subprocess.PIPE,
+                       stderr=subprocess.PIPE, text=True, timeout=900)
+    res['time_s'] = round(time.time() - t0, 2)
+    try:
+        j = json.loads(p.stdout)
+        vr = j['verification-results']
+    except Exception:
+        res.update(status='TOOL_ERROR', detail=(p.stderr or p.stdout)[-2000:], obligations=0)
+        return res
+    res['verified'] = vr.get('verified', 0)
+    res['obligations'] = vr.get('verified', 0) + vr.get('errors', 0)
+    if vr.get('success'):
+        if res['verified'] == 0:
+            res.update(status='TOOL_ERROR', detail='zero obligations generated (vacuous)')
+        else:
+            res['status'] = 'SUCCESS'
+        res['errors'] = []
+        return res
+    errs = parse_errors(p.stderr, text)
+    if vr.get('encountered-vir-error') or not errs or any(
+            e['message'].startswith(('cannot find', 'mismatched types', 'expected', 'no method', 'unresolved'))
+            or 'is not supported' in e['message'] for e in errs):
+        # Verus could not even process the (changed) text: undecided, not a violation
+        res.update(status='TOOL_ERROR', detail=p.stderr[-2500:], errors=errs)
+        return res
+    res.update(status='FAILED', errors=errs, verus_stderr=p.stderr[-6000:], path=path)
+    return res
 
 
 def run_units(units, repo, root, workroot, log):
-    return []
+    out = []
+    for u in units:
+        log('[verus] unit %s (extracting from %s) ...' % (u['name'], repo))
+        r = run_unit(u, repo, root, workroot, log)
+        log('[verus] %s: %s (%s verified, %.1fs)' % (u['name'], r['status'], r.get('verified'), r.get('time_s') or 0))
+        out.append(r)
+    return out
 
 
 def write_replay(root, pid, res, oids):
-    return ''
+    rdir = os.path.join(root, 'replays')
+    os.makedirs(rdir, exist_ok=True)
+    rpath = os.path.join(rdir, '%s_%s.json' % (pid, res['unit']))
+    rec = {'backend': 'verus', 'property': pid, 'unit': res['unit'], 'obligations': oids,
+           'failed': res.get('errors'), 'verus_output': res.get('verus_stderr'),
+           'note': 'Verus gives no counterexample: no-failing-input-found. The failed obligation is a clause of the contract of the REAL function text extracted from /repo.',
+           'extraction': res.get('extraction'),
+           'replay_cmd': './check %s --replay %s' % (pid, rpath)}
+    json.dump(rec, open(rpath, 'w'), indent=1)
+    return rpath
 
 
 def replay(rec, repo, root, log):
-    return 2
+    u = dict(name=rec['unit'], **UNITS[rec['unit']])
+    r = run_unit(u, repo, root, '/var/tmp/rsass-verif', log)
+    log('unit %s: %s' % (rec['unit'], r['status']))
+    for e in r.get('errors') or []:
+        log('  failed obligation: %s' % e['obligation'])
+    return 1 if r['status'] == 'FAILED' else (0 if r['status'] == 'SUCCESS' else 2)
